@@ -16,7 +16,7 @@ LEVEL_TEXT = ("Runtime monitoring on recorded executions of the real code: the s
 LEVEL_NOTE = "Trusted: numpy/xarray indexing used by the oracle."
 TECHNIQUE = "runtime monitoring: relational oracle across detector representations on recorded executions; contract + purity monitors on make_subset_data and calc_*"
 RULE = ("pos: configs from 11 (scatterer,theory) kinds on grids of random shape, 40 percent with descending / unsorted axes; crops by isel and subimage; subsets of "
-        "size {1, 2, random, all-1, all}; subset: images incl. 2-channel, seeds; history: 6-12 calculations sharing one detector. "
+        "size {1, 2, random, all-1, all}; subset: images incl. 2-channel, seeds; history: 6-12 calculations sharing one detector, each repeated with the wavelength / medium index overridden and compared later with the same locations as points. "
         "non-trivial = hologram not constant over the grid; distinct by rounded case JSON")
 ASSUMPTIONS = ["MieLens in its default 'check' mode chooses interpolation from the number of points, so representations agree to interpolation accuracy (1e-9), not bitwise"]
 MIN_NONTRIVIAL = 20
